@@ -572,7 +572,7 @@ def enum_cases(thorough):
 def search(ctx):
     thorough = ctx.tier == "thorough"
     ctx.enumerate(enum_cases(thorough), "type boundaries x access paths; 8/16-bit values; fixed 2-thread interleavings")
-    ctx.hypothesis(case_strategy(["inline"]), 4000 if thorough else 500, salt=1)
-    ctx.hypothesis(case_strategy(["baton"]), 1500 if thorough else 150, salt=2)
+    ctx.hypothesis(case_strategy(["inline"]), 4000 if thorough else 1000, salt=1)
+    ctx.hypothesis(case_strategy(["baton"]), 1500 if thorough else 300, salt=2)
     ctx.hypothesis(case_strategy(["dispatcher"]), 300 if thorough else 40, salt=3)
     ctx.hypothesis(case_strategy(["virtual"]), 150 if thorough else 20, salt=4)
